@@ -366,6 +366,7 @@ def run(ctx):
   C07.ds_layout(ctx)
   C07.other_layouts(ctx)
   C07.sharded_triple(ctx)      # static fields (sizes, index_start) and declared layout of the sharded restore template
+  C07.sharded_record_conversion(ctx)
   C07.sharded_update_layout(ctx)   # the sharded update hands back the records (and array sizes) the restore template has
   C12.run(ctx)                 # SM3 accumulators keep their init shape (plain max over the complementary axes)
   C04.counters(ctx)
